@@ -4,6 +4,9 @@
 #include <yaclib/fault/detail/fiber/scheduler.hpp>
 
 #include <cstdio>
+#ifdef YACLIB_VERIF
+#  include <yaclib/fault/verif_hook.hpp>
+#endif
 
 namespace yaclib::fault {
 
@@ -91,6 +94,11 @@ void Scheduler::RunLoop() {
     auto* next = GetNext();
     sCurrent = next;
     TickTime();
+#ifdef YACLIB_VERIF
+    if (auto* hook = verif::GetHook(); hook != nullptr) {
+      hook->OnResume(next->GetId());
+    }
+#endif
     next->Resume();
     if (next->GetState() == detail::fiber::Completed && !next->IsThreadAlive()) {
       delete next;
@@ -145,6 +153,13 @@ void SetRandomListPick(std::uint32_t k) noexcept {
 }
 
 Node* PollRandomElementFromList(BiList& list) {
+#ifdef YACLIB_VERIF
+  if (auto* hook = verif::GetHook(); hook != nullptr && hook->choose) {
+    auto* picked = list.GetElement(hook->Pick(list.Size()), false);
+    picked->Erase();
+    return picked;
+  }
+#endif
   auto rand_pos = detail::GetRandNumber(2 * sRandomListPick);
   auto reversed = false;
   if (rand_pos >= sRandomListPick) {
